@@ -168,13 +168,44 @@ impl<'tcx> Cx<'tcx> {
                 }
             }
         }
+        // `[int; N]` constants (e.g. a table of shift amounts): the elements
+        let mut elems = "null".to_string();
+        if let ty::Array(inner, _) = t.kind() {
+            if matches!(inner.kind(), ty::Int(_) | ty::Uint(_) | ty::Bool) {
+                let env = TypingEnv::post_analysis(tcx, body.source.def_id());
+                if let Ok(mir::ConstValue::Indirect { alloc_id, offset }) = c.const_.eval(tcx, env, c.span) {
+                    if let Some(rustc_middle::mir::interpret::GlobalAlloc::Memory(alloc)) = tcx.try_get_global_alloc(alloc_id) {
+                        if let (Ok(il), Ok(tl)) = (tcx.layout_of(env.as_query_input(*inner)), tcx.layout_of(env.as_query_input(t))) {
+                            let size = il.size.bytes() as usize;
+                            let total = tl.size.bytes() as usize;
+                            let start = offset.bytes() as usize;
+                            let a = alloc.inner();
+                            if size > 0 && start + total <= a.len() && total / size <= 64 {
+                                let bytes = a.inspect_with_uninit_and_ptr_outside_interpreter(start..start + total);
+                                let mut vs: Vec<String> = Vec::new();
+                                for k in 0..(total / size) {
+                                    let mut v: u128 = 0;
+                                    for i in 0..size { v |= (bytes[k * size + i] as u128) << (8 * i); }
+                                    if matches!(inner.kind(), ty::Int(_)) {
+                                        let sh = 128 - 8 * size as u32;
+                                        let sv = ((v << sh) as i128) >> sh;
+                                        vs.push(format!("\"{}\"", sv));
+                                    } else { vs.push(format!("\"{}\"", v)); }
+                                }
+                                elems = format!("[{}]", vs.join(","));
+                            }
+                        }
+                    }
+                }
+            }
+        }
         let mut stat = "null".to_string();
         if let mir::Const::Val(mir::ConstValue::Scalar(rustc_middle::mir::interpret::Scalar::Ptr(ptr, _)), _) = c.const_ {
             if let Some(rustc_middle::mir::interpret::GlobalAlloc::Static(d)) = tcx.try_get_global_alloc(ptr.provenance.alloc_id()) {
                 stat = esc(&tcx.def_path_str(d));
             }
         }
-        format!("{{\"const\":{{\"ty\":{},\"val\":{},\"str\":{},\"fn\":{},\"cdef\":{},\"static\":{},\"s\":{}}}}}", self.ty(t), val, strval, fnj, cdef, stat, esc(&format!("{}", c.const_)))
+        format!("{{\"const\":{{\"ty\":{},\"val\":{},\"elems\":{},\"str\":{},\"fn\":{},\"cdef\":{},\"static\":{},\"s\":{}}}}}", self.ty(t), val, elems, strval, fnj, cdef, stat, esc(&format!("{}", c.const_)))
     }
     fn docflag(&self, did: DefId) -> &'static str {
         if did.is_local() { return "null"; }
